@@ -5,7 +5,7 @@ make_tokens / ParseToken) only compares integers, so candidates are abstract: ev
 coordinate and precedence is an UNBOUNDED symbolic integer, the source is a duck string
 that records slices (SpanStr), token classes and match objects are 10-line stubs.
 """
-from vfy.lemma import lemma, P
+from vfy.lemma import lemma, P, Duck
 from mistletoe import span_tokenizer as st
 
 ASSUMPTIONS = ['C16: candidates are abstract (start, parse_start, parse_end, end, precedence, parse_inner); '
@@ -13,7 +13,7 @@ ASSUMPTIONS = ['C16: candidates are abstract (start, parse_start, parse_end, end
 OUTSIDE = ['more than 3 (quick) / 4 (thorough) simultaneous candidates', 'custom find() methods that return unsorted or overlapping matches of the same type beyond what P2 covers']
 
 
-class SpanStr:
+class SpanStr(Duck):
     """duck-typed source string: slicing returns the sliced interval"""
     def __init__(self, lo, hi):
         self.lo, self.hi = lo, hi
